@@ -218,6 +218,14 @@ trivial = no radial; distinct = distinct (elevation runs, radial count, record c
             obs.max("largest_record_payload_bytes", big.payloads().first().map(|p| p.len() as u64).unwrap_or(0));
             check_volume(obs, &big, "whole-volume-in-one-record", i);
         }
+        // one volume per run (thorough: four) with more than 65,536 radials: 255 cuts of some 270
+        // radials each (the statement's domain goes to 255 x 720)
+        if (i == 3 && !thorough) || (thorough && i >= 3 && i < 7) {
+            let p = VolParams { pattern: ElevPattern::ManyLong, radials_per_run: (258, 290), max_gates: 0, meta_density: 4000 };
+            let long = gen_volume(&mut rng, &p);
+            obs.count("volumes_of_more_than_65536_radials", 1);
+            check_volume(obs, &long, "more-than-65536-radials", i);
+        }
         if i % 5 == 2 {
             if let Some(sib) = spec.with_records_reordered(&mut rng) {
                 obs.count("sibling_volumes_with_the_same_header_and_length", 1);
